@@ -706,7 +706,7 @@ def shrink_script(script: dict, key: str, pred) -> dict:
 CORPUS_TRACE = {"surface": "camelback", "seed": 3, "T": 1e-6, "step": 2.5, "n_steps": 40}
 
 
-def lj_predicate_run(seed: int, n_steps: int) -> tuple[str, str, dict] | None:
+def lj_predicate_run(seed: int, n_steps: int, inversion: bool | None = None) -> tuple[str, str, dict] | None:
     """C07 on an atomic system with the real molecular similarity, atomic step taker and
     Lennard-Jones surface (numeric, up to translation)."""
     import random as pyrandom
@@ -737,7 +737,10 @@ def lj_predicate_run(seed: int, n_steps: int) -> tuple[str, str, dict] | None:
         outs.append((np.array(pos, dtype=float).copy(), float(e), int(d["warnflag"]), d["task"]))
         return pos, e, d
     ktn = KineticTransitionNetwork()
-    bh = bhmod.BasinHopping(ktn=ktn, potential=LennardJones(), similarity=MolecularSimilarity(0.05, 1e-3, weighted=False),
+    if inversion is None:
+        inversion = seed % 2 == 1       # every other run: mirror images count as the same structure when compared
+    bh = bhmod.BasinHopping(ktn=ktn, potential=LennardJones(),
+                            similarity=MolecularSimilarity(0.05, 1e-3, weighted=False, allow_inversion=inversion),
                             step_taking=Rec(max_displacement=0.6, max_atoms=2))
     real_metro = bh.metropolis
 
@@ -872,12 +875,13 @@ def predicates(ctx: Ctx) -> None:
         ctx.stats.case({"stream": "predicate-trace", "surface": p["surface"], "seed": p["seed"]}, True)
         if r:
             ctx.fail(r[0], r[1], {"trace": p, **r[2]})
-    for i in range(ctx.scale(1, 4)):
+    for i in range(ctx.scale(4, 12) * (2 if deep else 1)):
         seed = rng.randrange(10 ** 6)
-        r = lj_predicate_run(seed, ctx.scale(6, 12))
-        ctx.stats.case({"stream": "predicate-lj", "seed": seed}, True)
+        r = lj_predicate_run(seed, ctx.scale(15, 30), inversion=(i % 2 == 0))
+        ctx.stats.case({"stream": "predicate-lj", "seed": seed, "allow_inversion": i % 2 == 0}, True)
         if r:
-            ctx.fail(r[0], r[1], {"lj": {"seed": seed, "n_steps": ctx.scale(6, 12)}, **r[2]})
+            ctx.fail(r[0], r[1], {"lj": {"seed": seed, "n_steps": ctx.scale(15, 30), "inversion": i % 2 == 0}, **r[2]})
+            break
 
 
 def replay(ctx: Ctx, data: dict) -> bool:
@@ -890,7 +894,7 @@ def replay(ctx: Ctx, data: dict) -> bool:
         script, rec = run_trace(data["trace"])
         r = walker_predicate(script, rec)
     elif "lj" in data:
-        r = lj_predicate_run(data["lj"]["seed"], data["lj"]["n_steps"])
+        r = lj_predicate_run(data["lj"]["seed"], data["lj"]["n_steps"], data["lj"].get("inversion"))
     elif "script" in data:
         script = data["script"]
         if script.get("trace"):
